@@ -11,10 +11,14 @@ import (
 const (
 	SliceSort = "Slice"
 	StrSort   = "Str"
+	BytesSort = "Bytes"
 )
 
 // sortOf maps a Go type to an SMT sort (declaring what is needed).
 func (x *Exec) sortOf(t types.Type) string {
+	if tp, ok := t.(*types.TypeParam); ok {
+		return x.ctx.Sort("TP$" + tp.Obj().Name())
+	}
 	switch u := t.Underlying().(type) {
 	case *types.Basic:
 		switch {
@@ -44,9 +48,6 @@ func (x *Exec) sortOf(t types.Type) string {
 	case *types.Tuple:
 		return "TUPLE"
 	}
-	if tp, ok := t.(*types.TypeParam); ok {
-		return x.ctx.Sort("TP$" + tp.Obj().Name())
-	}
 	return smt.Int
 }
 
@@ -56,8 +57,19 @@ func (x *Exec) declSlice() {
 
 func typeName(t types.Type) string {
 	s := types.TypeString(t, func(p *types.Package) string { return p.Path() })
-	s = strings.NewReplacer(" ", "_", "(", "<", ")", ">", "|", "!").Replace(s)
+	s = strings.NewReplacer(" ", "_", "(", "<", ")", ">", "|", "!", ";", "_", "\"", "'", "\n", "_", "\t", "_").Replace(s)
+	if len(s) > 120 {
+		s = fmt.Sprintf("%s~%x", s[:100], hashStr(s))
+	}
 	return s
+}
+
+func hashStr(s string) uint32 {
+	var h uint32 = 2166136261
+	for i := 0; i < len(s); i++ {
+		h = (h ^ uint32(s[i])) * 16777619
+	}
+	return h
 }
 
 func (x *Exec) structSort(t types.Type, st *types.Struct) string {
@@ -77,22 +89,71 @@ func (x *Exec) structSort(t types.Type, st *types.Struct) string {
 	return smt.Sym(name)
 }
 
+func (x *Exec) structField(t types.Type, st *types.Struct, i int, v smt.T) smt.T {
+	x.structSort(t, st)
+	return smt.App(x.sortOf(st.Field(i).Type()), smt.Sym(fmt.Sprintf("S$%s.%d", typeName(t), i)), v)
+}
+
+func (x *Exec) mkStruct(t types.Type, st *types.Struct, fs []smt.T) smt.T {
+	sort := x.structSort(t, st)
+	if len(fs) == 0 {
+		fs = append(fs, smt.IntLit(0))
+	}
+	return smt.App(sort, smt.Sym("mk$S$"+typeName(t)), fs...)
+}
+
+func (x *Exec) regHeap(name, sort string) (string, string) {
+	if _, ok := x.heapSort[name]; !ok {
+		x.heapSort[name] = sort
+	}
+	return name, sort
+}
+
+func (x *Exec) noteRefHeap(name string, t types.Type) {
+	switch t.Underlying().(type) {
+	case *types.Pointer, *types.Interface, *types.Map, *types.Chan, *types.Signature:
+		if x.heapHoldsRefs == nil {
+			x.heapHoldsRefs = map[string]bool{}
+		}
+		x.heapHoldsRefs[name] = true
+	}
+}
+
 // fieldHeap returns the heap name and sort for field i of struct type t (named or not).
 func (x *Exec) fieldHeap(t types.Type, i int) (string, string) {
 	st := t.Underlying().(*types.Struct)
 	name := fmt.Sprintf("F$%s.%s", typeName(t), st.Field(i).Name())
-	return name, smt.ArraySort(smt.Int, x.sortOf(st.Field(i).Type()))
+	x.noteRefHeap(name, st.Field(i).Type())
+	return x.regHeap(name, smt.ArraySort(smt.Int, x.sortOf(st.Field(i).Type())))
 }
 
 // ptrHeap is the heap for dereferencing *T where T is not a struct.
 func (x *Exec) ptrHeap(t types.Type) (string, string) {
-	return "P$" + typeName(t), smt.ArraySort(smt.Int, x.sortOf(t))
+	x.noteRefHeap("P$"+typeName(t), t)
+	return x.regHeap("P$"+typeName(t), smt.ArraySort(smt.Int, x.sortOf(t)))
 }
 
 // elemHeap is the heap holding array contents for element type t: Ref -> Int -> elem.
 func (x *Exec) elemHeap(t types.Type) (string, string) {
 	es := x.sortOf(t)
-	return "E$" + typeName(t), smt.ArraySort(smt.Int, smt.ArraySort(smt.Int, es))
+	x.noteRefHeap("E$"+typeName(t), t)
+	return x.regHeap("E$"+typeName(t), smt.ArraySort(smt.Int, smt.ArraySort(smt.Int, es)))
+}
+
+// isAggregate: struct and array typed fields/cells live "inline": they are addressed through interior references.
+func isAggregate(t types.Type) bool {
+	switch t.Underlying().(type) {
+	case *types.Struct, *types.Array:
+		return true
+	}
+	return false
+}
+
+// interiorRef is the reference of the sub-object field i of the struct at base.
+func (x *Exec) interiorRef(t types.Type, i int, base smt.T) smt.T {
+	st := t.Underlying().(*types.Struct)
+	f := x.ctx.Fun(fmt.Sprintf("fa$%s.%s", typeName(t), st.Field(i).Name()), []string{smt.Int}, smt.Int)
+	return smt.App(smt.Int, f, base)
 }
 
 // typeFacts returns range / well-formedness facts for a term of Go type t.
@@ -106,21 +167,37 @@ func (x *Exec) typeFacts(v smt.T, t types.Type) []smt.T {
 				fs = append(fs, smt.Le(smt.IntLitS(lo), v), smt.Le(v, smt.IntLitS(hi)))
 			}
 		}
+		if u.Info()&types.IsString != 0 {
+			fs = append(fs, smt.Le(smt.IntLit(0), x.slen(v)))
+		}
 	case *types.Slice:
 		fs = append(fs,
 			smt.Le(smt.IntLit(0), sOff(v)), smt.Le(smt.IntLit(0), sLen(v)), smt.Le(sLen(v), sCap(v)),
 			smt.Le(smt.IntLit(0), sArr(v)),
-			smt.Implies(smt.Eq(sArr(v), smt.IntLit(0)), smt.And(smt.Eq(sLen(v), smt.IntLit(0)), smt.Eq(sCap(v), smt.IntLit(0)))),
-			smt.Le(sCap(v), smt.IntLitS("4611686018427387904")))
+			smt.Implies(smt.Eq(sArr(v), smt.IntLit(0)), smt.And(smt.Eq(sLen(v), smt.IntLit(0)), smt.Eq(sCap(v), smt.IntLit(0)), smt.Eq(sOff(v), smt.IntLit(0)))),
+			smt.Le(smt.Add(sOff(v), sCap(v)), smt.IntLitS("4611686018427387904")))
 	case *types.Pointer, *types.Interface, *types.Signature, *types.Map, *types.Chan:
 		fs = append(fs, smt.Le(smt.IntLit(0), v))
+	case *types.Struct:
+		for i := 0; i < u.NumFields(); i++ {
+			ft := u.Field(i).Type()
+			switch ft.Underlying().(type) {
+			case *types.Basic, *types.Slice, *types.Pointer, *types.Interface:
+				fs = append(fs, x.typeFacts(x.structField(t, u, i, v), ft)...)
+			}
+		}
 	}
 	return fs
 }
 
+func (x *Exec) slen(s smt.T) smt.T {
+	f := x.ctx.Fun("slen", []string{x.ctx.Sort(StrSort)}, smt.Int)
+	return smt.App(smt.Int, f, s)
+}
+
 func intRange(b *types.Basic) (string, string) {
 	switch b.Kind() {
-	case types.Int, types.Int64, types.UntypedInt:
+	case types.Int, types.Int64:
 		return "-9223372036854775808", "9223372036854775807"
 	case types.Int32, types.UntypedRune:
 		return "-2147483648", "2147483647"
@@ -140,6 +217,28 @@ func intRange(b *types.Basic) (string, string) {
 	return "", ""
 }
 
+func intBits(b *types.Basic) (bits int, signed bool) {
+	switch b.Kind() {
+	case types.Int, types.Int64:
+		return 64, true
+	case types.Int32, types.UntypedRune:
+		return 32, true
+	case types.Int16:
+		return 16, true
+	case types.Int8:
+		return 8, true
+	case types.Uint, types.Uint64, types.Uintptr:
+		return 64, false
+	case types.Uint32:
+		return 32, false
+	case types.Uint16:
+		return 16, false
+	case types.Uint8:
+		return 8, false
+	}
+	return 0, false
+}
+
 func isUnsigned(t types.Type) bool {
 	b, ok := t.Underlying().(*types.Basic)
 	return ok && b.Info()&types.IsUnsigned != 0
@@ -147,6 +246,21 @@ func isUnsigned(t types.Type) bool {
 func isInteger(t types.Type) bool {
 	b, ok := t.Underlying().(*types.Basic)
 	return ok && b.Info()&types.IsInteger != 0
+}
+func isString(t types.Type) bool {
+	b, ok := t.Underlying().(*types.Basic)
+	return ok && b.Info()&types.IsString != 0
+}
+func isByteSlice(t types.Type) bool {
+	if t == nil {
+		return false
+	}
+	s, ok := t.Underlying().(*types.Slice)
+	if !ok {
+		return false
+	}
+	b, ok := s.Elem().Underlying().(*types.Basic)
+	return ok && b.Kind() == types.Uint8
 }
 
 func sArr(s smt.T) smt.T { return smt.App(smt.Int, "s.arr", s) }
@@ -156,3 +270,5 @@ func sCap(s smt.T) smt.T { return smt.App(smt.Int, "s.cap", s) }
 func mkSlice(arr, off, ln, cp smt.T) smt.T {
 	return smt.App(SliceSort, "mkslice", arr, off, ln, cp)
 }
+
+var nilSlice = smt.T{S: "(mkslice 0 0 0 0)", Sort: SliceSort}
